@@ -64,6 +64,12 @@ func runC18(c *explore.Ctx) {
 	if c.Shard == 0 || c.Replay {
 		c18Extra(c)
 	}
+	if !c.Replay || c.ReplayScope == "ZOO" {
+		zooEach(c, true, func(idx int64, z *zooSeg) { zooMatching(c, idx, z) })
+		if c.Replay {
+			return
+		}
+	}
 	enumerate(func(bidx int64, batch []gen.Doc, kinds []int) bool {
 		ls := model.Build(batch)
 		for fi, form := range forms {
